@@ -398,6 +398,37 @@ def check_spellings(case):
                   dict(op='xor', spelling='callable'))
     if not (_unchanged(x, sx) and _unchanged(y, sy)):
         out.viol('operand-mutated', '%s: an operand changed (shared-column tables)' % lab)
+    # --- the SAME table objects again after one key cell of x was overwritten in place: the join must see the table as it is now
+    if lrows and rrows:
+        out.sub(2)
+        newk = rk[0][0] if not keq(lk[0][0], rk[0][0]) else (5 if not any(keq(5, t[0]) for t in rk) else 'zz')
+        x['k'][0] = newk
+        lrows_b = [dict(r) for r in lrows]
+        lrows_b[0]['k'] = newk
+        labb = 'after x.k[0] = %r (was %r): l=%s r=%s' % (newk, lk[0][0], show([r['k'] for r in lrows_b]), show([t[0] for t in rk]))
+        ok, res = _call(out, "x.join(y, 'k') %s" % labb, lambda: x.join(y, 'k'), dict(op='join', spelling='after-edit'))
+        if ok:
+            check_join(out, "x.join(y, 'k') %s" % labb, res, lrows_b, rrows, kf, kf, ['k'], None, dict(op='join', spelling='after-edit'))
+        ok, res = _call(out, "x.xor(y, 'k') %s" % labb, lambda: x.xor(y, 'k'), dict(op='xor', spelling='after-edit'))
+        if ok:
+            check_xor(out, "x.xor(y, 'k') %s" % labb, res, lrows_b, rrows, kf, kf, ['k', 'v', 'j'], 'v', dict(op='xor', spelling='after-edit'))
+    # --- two same-named non-key columns (j and j2) next to an explicit key
+    from pyg_base import dictable as _d2
+    xj = _d2(dict(k=[t[0] for t in lk], v=list(range(len(lk))), j=['L%d' % i for i in range(len(lk))], j2=['M%d' % i for i in range(len(lk))]))
+    yj = _d2(dict(k=[t[0] for t in rk], w=list(range(len(rk))), j=['R%d' % i for i in range(len(rk))], j2=['S%d' % i for i in range(len(rk))]))
+    out.sub()
+    ok, res = _call(out, "x.join(y, 'k') with two shared columns %s" % lab, lambda: xj.join(yj, 'k'), dict(op='join', spelling='two-shared'))
+    if ok:
+        lr2 = [dict(k=t[0], v=i, j='L%d' % i) for i, t in enumerate(lk)]          # j2 is compared below
+        rr2 = [dict(k=t[0], w=i, j='R%d' % i) for i, t in enumerate(rk)]
+        exp2 = check_join(out, "x.join(y, 'k') with two shared columns %s" % lab, res, lr2, rr2, kf, kf, ['k'], None, dict(op='join', spelling='two-shared'))
+        try:
+            for row in res:
+                if row['j2'] != ('M%d' % row['v'], 'S%d' % row['w']):
+                    out.viol('join-wrong-mode', 'second shared column j2 of pair (%s,%s) is %r' % (row['v'], row['w'], row['j2']), op='join', spelling='two-shared')
+                    break
+        except Exception as e:
+            out.viol('join-result-broken', 'two shared columns: %s: %s' % (type(e).__name__, e), op='join', spelling='two-shared')
     # --- a table joined with ITSELF on two different columns (k against q = k rotated by one row)
     from pyg_base import dictable as _dd
     kk = [t[0] for t in lk]
@@ -513,9 +544,10 @@ def suites(tier, seed):
         S.append(Suite('keys1', lambda: gen_basic(range(8), 3, 3), check_basic,
                        rule='all pairs of tables with 0..3 x 0..3 rows, one key column over the 8-value domain %s; join, xor, xor(mode=r) under the '
                             'termination monitor' % K8, bounds=dict(left_rows=3, right_rows=3, key_values=8)))
-        S.append(Suite('keys1_4x4', lambda: (c for c in gen_basic(K6, 4, 4, total=7) if len(c['l']) == 4 or len(c['r']) == 4), check_basic,
-                       rule='one key column over the 6-value sub-domain {None,1,1.0,nan#1,nan#2,a}: all pairs with a 4-row side and at most 7 rows in total',
-                       bounds=dict(left_rows=4, right_rows=4, total_rows=7, key_values=6)))
+        S.append(Suite('keys1_4x4', lambda: (c for c in gen_basic(K4, 4, 4, total=7) if len(c['l']) == 4 or len(c['r']) == 4), check_basic,
+                       rule='one key column over the 4-value sub-domain {1,nan#1,nan#2,a}: all pairs with a 4-row side and at most 7 rows in total '
+                            '(the 6-value sub-domain took 30 minutes)',
+                       bounds=dict(left_rows=4, right_rows=4, total_rows=7, key_values=4)))
         S.append(Suite('spellings', lambda: gen_spell(2, 2), check_spellings,
                        rule='all pairs 0..2 x 0..2 rows over the 8-value domain x every key spelling x every mode', bounds=dict(left_rows=2, right_rows=2)))
         S.append(Suite('strings', lambda: gen_basic(KSTR, 3, 3), check_basic,
